@@ -80,10 +80,12 @@ def case_strategy(profile):
         # the two endpoints may advertise different idle timeouts: the smaller one is in force once both are known
         extra = {"idle_timeout": st.sampled_from([60.0, 60.0, 4.0, 2.0]), "s_idle_timeout": st.sampled_from([None, None, 2.0, 5.0, 60.0]), "c_idle_timeout": st.sampled_from([None, None, None, 3.0, 60.0])}
     elif profile.get("cfg_extra_fn") == "c13":
-        extra = {"leaf": st.sampled_from(["ed25519", "p256", "rsa", "chain2", "chain3", "chain3"]), "retry": st.sampled_from([False, False, True]), "mute_client_after": st.sampled_from([None, None, 1, 1, 2, 3])}
+        extra = {"leaf": st.sampled_from(["ed25519", "p256", "rsa", "chain2", "chain3", "chain3"]), "retry": st.sampled_from([False, False, True]), "mute_client_after": st.sampled_from([None, None, 1, 1, 2, 3]), "resume": st.sampled_from([False, False, True])}
     elif profile.get("cfg_extra_fn") == "c08":
         # the client may have to start over: Retry, or Version Negotiation with a server that does not speak the version it started with
         extra = {"retry": st.sampled_from([False, False, True]), "server_versions": st.sampled_from([[V1, V2], [V2, V1], [V1], [V2]]), "resume": st.sampled_from([False, False, True])}
+    if profile.get("resume") and not (extra and "resume" in extra):
+        extra = dict(extra or {}, resume=st.sampled_from([False, False, True]))
     if profile.get("c_keylog"):
         extra = dict(extra or {}, c_keylog=st.just(True))
     if profile.get("jitter0"):
@@ -688,11 +690,11 @@ class C08WireMonitor(Monitor):
 
 
 PROFILES = {
-    "C01": {"adv_end": 3.0, "fair": 20.0, "rebind": True, "dup": True},
-    "C01-norebind": {"adv_end": 3.0, "fair": 20.0, "rebind": False, "dup": True},
+    "C01": {"adv_end": 3.0, "fair": 20.0, "rebind": True, "dup": True, "resume": True, "early": True},
+    "C01-norebind": {"adv_end": 3.0, "fair": 20.0, "rebind": False, "dup": True, "resume": True, "early": True},
     "C09": {"c_keylog": True, "adv_end": 3.0, "fair": 12.0, "rebind": False, "dup": True, "close": True, "cfg_extra_fn": "c09"},
     "C12": {"c_keylog": True, "adv_end": 3.0, "fair": 5.0, "rebind": False, "dup": True, "key_update": False, "change_cid": True, "jitter0": True},
-    "C13": {"c_keylog": True, "adv_end": 3.0, "fair": 6.0, "rebind": True, "dup": True, "cfg_extra_fn": "c13", "mds": [1200, 1280, 1350, 1452]},
+    "C13": {"c_keylog": True, "adv_end": 3.0, "fair": 6.0, "rebind": True, "dup": True, "cfg_extra_fn": "c13", "mds": [1200, 1280, 1350, 1452], "early": True},
     "C02": {"c_keylog": True, "adv_end": 2.0, "fair": 4.0, "rebind": True, "dup": True, "cfg_extra_fn": "c08", "early": True, "max_ops": 6, "max_fates": 60},
     "C08": {"c_keylog": True, "adv_end": 3.0, "fair": 8.0, "rebind": False, "dup": True, "big": True, "key_update": False, "cfg_extra_fn": "c08", "early": True},
 }
